@@ -7,6 +7,8 @@ import (
 	"math/big"
 	"strings"
 
+	"cosmossdk.io/math"
+
 	alliancetypes "github.com/terra-money/alliance/x/alliance/types"
 )
 
@@ -472,4 +474,76 @@ func (OracleC15) compareStore(x *Exec, s *Snap, when string) {
 	if !eqStrings(haveQ, wantQ) {
 		x.Fail("C15", "queue", "%s: redelegation time queue %v differs from the pending set %v", when, haveQ, wantQ)
 	}
+}
+
+// predictUndelegate restates, over snapshot values and with the SDK's 18-digit decimal
+// operations, the module's documented acceptance rule for Undelegate/Redelegate of amt from
+// position d (tokens -> shares at the validator's share price; within 0.01 share of the whole
+// position = full withdrawal; more whole shares than the position holds = "shares" refusal;
+// shares capped at the position; the shares' token value + 0.01, floored, must cover amt, else
+// "tokens" refusal). It is the exact predictor for the listed finding F-C20c: a refusal of a
+// reported balance is counted under the finding only when this rule predicts it; a module that
+// refuses where the rule accepts is reported.
+func predictUndelegate(s *Snap, d DelSnap, amt math.Int) (out string) {
+	defer func() {
+		if r := recover(); r != nil {
+			out = "panic"
+		}
+	}()
+	a, ok := s.Assets[d.Denom]
+	if !ok || d.V < 0 {
+		return "unknown"
+	}
+	zero := math.LegacyZeroDec()
+	vs, ok := s.Vals[d.V].ValShares[d.Denom]
+	if !ok {
+		vs = zero
+	}
+	tds, ok := s.Vals[d.V].DelShares[d.Denom]
+	if !ok {
+		tds = zero
+	}
+	total := math.LegacyNewDecFromInt(a.TotalTokens)
+	valTokens := total
+	if !a.TotalValidatorShares.IsZero() {
+		valTokens = vs.Quo(a.TotalValidatorShares).Mul(total)
+	}
+	var want math.LegacyDec
+	if tds.TruncateInt().IsZero() {
+		want = math.LegacyNewDecFromInt(amt)
+	} else {
+		want = tds.Quo(valTokens).MulInt(amt)
+	}
+	shares := want
+	if d.Shares.Sub(want).Abs().LT(math.LegacyNewDecWithPrec(1, 2)) {
+		shares = d.Shares
+	} else {
+		if d.Shares.LT(want.TruncateDec()) {
+			return "shares"
+		}
+		if want.GT(d.Shares) {
+			shares = d.Shares
+		}
+	}
+	tokens := valTokens
+	if !tds.IsZero() {
+		tokens = shares.Quo(tds).Mul(valTokens)
+	}
+	if amt.GT(tokens.Add(math.LegacyNewDecWithPrec(1, 2)).TruncateInt()) {
+		return "tokens"
+	}
+	return "ok"
+}
+
+// refusalPredicted: the module's refusal message matches what the acceptance rule predicts.
+func refusalPredicted(s *Snap, d DelSnap, amt math.Int, msg string) bool {
+	switch predictUndelegate(s, d, amt) {
+	case "shares":
+		return strings.Contains(msg, "insufficient delegation shares")
+	case "tokens":
+		return strings.Contains(msg, "insufficient tokens")
+	case "panic", "unknown":
+		return true // degenerate states are classified by their own findings
+	}
+	return false
 }
